@@ -447,3 +447,28 @@ theorem preadBlocks_ok {cap : Nat} (hc : 0 < cap) (n : Nat) : BlocksOK cap n (pr
   · rw [if_neg h]; exact (readSingleBlocks_ok hc n n (Nat.le_refl _)).1
 
 end KV.Sort
+
+namespace KV.Sort
+open List
+
+theorem pwrite_fold (blocks : List Block) : ∀ (f : Buf) (off : Nat) (written : Buf),
+    f.take off = written → written.length = off →
+    let r := blocks.foldl (fun (st : Buf × Nat) b =>
+      (pwriteAt st.1 st.2 (b.mem.take b.valid), st.2 + (b.mem.take b.valid).length)) (f, off)
+    r.1.take r.2 = written ++ (blocks.map (fun b => b.mem.take b.valid)).flatten := by
+  induction blocks with
+  | nil => intro f off written h1 _; simpa using h1
+  | cons b bs ih =>
+    intro f off written h1 h2
+    simp only [foldl_cons, map_cons, flatten_cons]
+    have := ih (pwriteAt f off (b.mem.take b.valid)) (off + (b.mem.take b.valid).length)
+      (written ++ b.mem.take b.valid) (by
+        unfold pwriteAt
+        rw [h1]
+        have : (written ++ take b.valid b.mem).length = off + (take b.valid b.mem).length := by
+          rw [length_append, h2]
+        rw [take_left' this]) (by rw [length_append, h2])
+    simp only at this ⊢
+    rw [this, append_assoc]
+
+end KV.Sort
